@@ -254,8 +254,38 @@ def _long_and_routes(ctx):
 
 
 def search(ctx):
-    """the disagreeing lines were already evaluated against the spec; widen the sweep by one"""
-    pass
+    """a tie is broken and the sweep found nothing.  Where the real operators rank two versions of a pool the other way
+    round than the scheme's Lean model (`layerb.MISMATCHES`), the one-constraint ranges on either of them, asked about
+    the other, are put to the implementation and to the end-to-end model (text layer ∘ constructor ∘ sort ∘ membership,
+    with the model's order, which is the scheme's reference order): a differing answer is a concrete input on which
+    membership is not the set the constraints denote."""
+    from univers.version_range import VersionRange
+    work = []
+    for mm in B.MISMATCHES[:6]:
+        name = mm["scheme"]
+        rcls = S.rclass(name)
+        if rcls is None:
+            continue
+        for x, y in ((mm["a"], mm["b"]), (mm["b"], mm["a"])):
+            if any((not t) or (not t.isascii()) or any(ch in t for ch in "|\\'\" \t\n") or t[0] in "<>=!*vV" for t in (x, y)):
+                continue
+            for c in (">=", "<=", ">", "<"):
+                work.append((name, "vers:%s/%s%s" % (rcls.scheme, c, y), x))
+    if not work:
+        return
+    ans = common.run_model(["e2e %s %s" % (common.hx(t), common.hx(x)) for _n, t, x in work])
+    for (name, t, x), a in zip(work, ans):
+        if not a.startswith("ok:"):
+            continue
+        vcls = S.vclass(name)
+        impl = B.res_bool(lambda: vcls(x) in VersionRange.from_string(t))
+        ctx.count("search-order-mismatch:" + name, key=(t, x), nontrivial=True)
+        if impl != a:
+            ctx.disagree("search-order-mismatch:" + name, "e2e %r %r" % (t, x), impl, a, True,
+                         {"scheme": name, "vers": t, "version": x,
+                          "clause": "membership differs from the end-to-end model, whose order of these two versions is the scheme's reference order",
+                          "python": "from univers.version_range import VersionRange as R; from univers.versions import %s as V; print(V(%r) in R.from_string(%r))"
+                                    % (vcls.__name__, x, t)}, spec=a)
 
 
 def _end_to_end(ctx):
